@@ -127,7 +127,7 @@ HARNESSES += [
      "contracts": ["public.h"], "includes": ["process.posix.c"], "enforce": "process_fork",
      "replace": ["fd_in_set"], "loop_contracts": True,
      "defs": {"SIDE_CHILD": None, "VERIF_LOOP_CONTRACTS": None}, "unwind": 34, "must_fail": ["reach/_exit"],
-     "pre_unwind": [{"file": "process.posix.c", "text": "signal < 32; signal++", "bound": 34}],
+     "pre_unwind": [{"function": "process_fork", "bound": 34}],
      "what": "process_fork, child side: signal reset loop (32, fully unrolled), close-all loop closed by a loop contract "
              "(unbounded up to the 1 Mi cap), failures reported through the error pipe (_exit contract)"},
 ]
@@ -140,7 +140,7 @@ HARNESSES += [
      "defs": {"SIDE_PARENT": None}, "unwind": 10,
      "what": "process_start, parent side, every OS call fallible, process_fork/path_prepend_cwd "
              "replaced by their contracts, strv_concat/strv_free by executable contracts (stubs in the harness): success is a live child that executed the program, failure leaves nothing"},
-    {"name": "process_start_child", "props": ["C10", "C11", "C12", "C03", "C04", "C01", "C08", "C09"], "src": "h_process_start.c",
+    {"name": "process_start_child", "props": ["C10", "C11", "C12", "C03", "C04", "C01", "C08", "C09", "C07", "C15"], "src": "h_process_start.c",
      "contracts": ["public.h"], "includes": ["process.posix.c", "strv.c"], "enforce": "process_start",
      "replace": ["process_fork", "path_prepend_cwd"],
      "defs": {"SIDE_CHILD": None}, "unwind": 10, "unwindset": ["harness.0:34"], "no_leak_check": True, "must_fail": ["reach/exec", "reach/_exit"],
@@ -474,6 +474,18 @@ PROPERTY_META = {
 }
 for _i in range(1, 21):
     PROPERTY_META.setdefault("C%02d" % _i, {"claimed": False, "reason": NOT_YET})
+
+# C14 ends "no sequence of calls with valid pointers causes a crash, memory error or
+# undefined behaviour" and C05 "no ... memory ... leak": the unlabelled memory-safety /
+# undefined-behaviour obligations of every POSIX harness belong to C14 and its leak
+# obligations to C05 (driver.failures), so every such harness serves both.
+for _h in HARNESSES:
+    if not _h.get("win"):
+        _h["props"] = list(_h["props"])
+        if "C14" not in _h["props"]:
+            _h["props"].append("C14")
+        if "C05" not in _h["props"] and not _h.get("no_leak_check"):
+            _h["props"].append("C05")
 
 for _h in HARNESSES:
     if _h["name"] in ("now", "reproc_stop", "reproc_destroy", "reproc_start_parent", "reproc_poll_3", "process_fork_child"):
